@@ -57,6 +57,8 @@ func main() {
 		err = genAwaitRun(os.Args[2], os.Args[3])
 	case "grpcwarmup":
 		err = genGrpcWarmUp(os.Args[2], os.Args[3])
+	case "grpcctx":
+		err = genGrpcCtx(os.Args[2], os.Args[3])
 	default:
 		err = fmt.Errorf("unknown translator %q", os.Args[1])
 	}
